@@ -52,6 +52,10 @@ type Expr struct {
 	Rel      string  `json:"rel,omitempty"`      // computed relation (computed, ttu)
 	Tupleset string  `json:"tupleset,omitempty"` // ttu
 	Children []*Expr `json:"ch,omitempty"`       // union/intersection: n children; exclusion: base, subtract
+	// Dup: in the protobuf rendering this child is THE SAME message (Go pointer)
+	// as its previous sibling (whose content it repeats): aliasing inside the
+	// input that JSON cannot express but code assembling models can produce.
+	Dup bool `json:"dup,omitempty"`
 }
 
 func (e *Expr) isOp() bool { return e.Kind == KUnion || e.Kind == KInter || e.Kind == KExcl }
@@ -60,7 +64,7 @@ func (e *Expr) clone() *Expr {
 	if e == nil {
 		return nil
 	}
-	c := &Expr{Kind: e.Kind, Rel: e.Rel, Tupleset: e.Tupleset}
+	c := &Expr{Kind: e.Kind, Rel: e.Rel, Tupleset: e.Tupleset, Dup: e.Dup}
 	for _, ch := range e.Children {
 		c.Children = append(c.Children, ch.clone())
 	}
@@ -75,6 +79,10 @@ type Relation struct {
 	// parser always does).
 	Module string `json:"module,omitempty"`
 	File   string `json:"file,omitempty"`
+	// ShareWith: in the protobuf rendering the rewrite of this relation is the
+	// same message (Go pointer) as that of the named relation of the same type,
+	// whose content it repeats.
+	ShareWith string `json:"share_with,omitempty"`
 }
 
 type Type struct {
@@ -111,7 +119,7 @@ func (m *Model) clone() *Model {
 	for _, t := range m.Types {
 		ct := &Type{Name: t.Name, Module: t.Module, File: t.File}
 		for _, r := range t.Relations {
-			cr := &Relation{Name: r.Name, Expr: r.Expr.clone(), Module: r.Module, File: r.File}
+			cr := &Relation{Name: r.Name, Expr: r.Expr.clone(), Module: r.Module, File: r.File, ShareWith: r.ShareWith}
 			cr.Direct = append([]Ref(nil), r.Direct...)
 			ct.Relations = append(ct.Relations, cr)
 		}
@@ -161,23 +169,26 @@ func exprToProto(e *Expr) *openfgav1.Userset {
 			ComputedUserset: &openfgav1.ObjectRelation{Relation: e.Rel},
 		}}}
 	case KUnion:
-		us := &openfgav1.Usersets{}
-		for _, c := range e.Children {
-			us.Child = append(us.Child, exprToProto(c))
-		}
-		return &openfgav1.Userset{Userset: &openfgav1.Userset_Union{Union: us}}
+		return &openfgav1.Userset{Userset: &openfgav1.Userset_Union{Union: &openfgav1.Usersets{Child: childrenToProto(e)}}}
 	case KInter:
-		us := &openfgav1.Usersets{}
-		for _, c := range e.Children {
-			us.Child = append(us.Child, exprToProto(c))
-		}
-		return &openfgav1.Userset{Userset: &openfgav1.Userset_Intersection{Intersection: us}}
+		return &openfgav1.Userset{Userset: &openfgav1.Userset_Intersection{Intersection: &openfgav1.Usersets{Child: childrenToProto(e)}}}
 	case KExcl:
-		return &openfgav1.Userset{Userset: &openfgav1.Userset_Difference{Difference: &openfgav1.Difference{
-			Base: exprToProto(e.Children[0]), Subtract: exprToProto(e.Children[1]),
-		}}}
+		ch := childrenToProto(e)
+		return &openfgav1.Userset{Userset: &openfgav1.Userset_Difference{Difference: &openfgav1.Difference{Base: ch[0], Subtract: ch[1]}}}
 	}
 	panic("bad expr kind " + e.Kind)
+}
+
+func childrenToProto(e *Expr) []*openfgav1.Userset {
+	out := make([]*openfgav1.Userset, len(e.Children))
+	for i, c := range e.Children {
+		if c.Dup && i > 0 && exprKey(c) == exprKey(e.Children[i-1]) {
+			out[i] = out[i-1] // the same message twice
+			continue
+		}
+		out[i] = exprToProto(c)
+	}
+	return out
 }
 
 func refToProto(r Ref) *openfgav1.RelationReference {
@@ -220,6 +231,11 @@ func (m *Model) toProto() *openfgav1.AuthorizationModel {
 					}
 				}
 				td.Metadata.Relations[r.Name] = rm
+			}
+			for _, r := range t.Relations {
+				if o := t.rel(r.ShareWith); r.ShareWith != "" && o != nil && o != r && exprKey(o.Expr) == exprKey(r.Expr) {
+					td.Relations[r.Name] = td.Relations[o.Name] // the same message for two relations
+				}
 			}
 		}
 		if t.Module != "" || t.File != "" {
